@@ -25,7 +25,8 @@ META = {
             "cycles, envelope bounds, raw bytes); outcome classes, enterprise post-states and every staking / vote record "
             "written are compared with the model by vm_compute; engine 2 runs the real mempool.verifyTx / validateTx on the same "
             "cases; engine 3 runs sequences on one real pool (19 rejection classes, then put / get / block / list / remove), 3 s "
-            "watchdog per operation.  Direct predicates: no panic, no hang, expected accept / specific rejection.",
+            "watchdog per operation; a representative subset is re-run at log level debug.  Direct predicates: no panic, no hang, "
+            "expected accept / specific rejection, same outcome at every log level.",
     "note": "Trusted: Coq kernel + vm_compute (no axioms); Go toolchain, overlay build with a VM stub that always succeeds; "
             "encoding/json (the model starts from the decoded CallInfo); string functions as oracles (DecodeAddress, base58 + "
             "IDFromBytes, SetString, ToUpper, ParseListEntry, RPC permission split, json round trip of a one-element list), their "
@@ -557,13 +558,15 @@ def eval_cases(ctx, cases, obs, tag):
     return sorted(mism), ""
 
 
-def run_engine(ctx, binp, cases, tag):
+def run_engine(ctx, binp, cases, tag, env_extra=None):
     fin = os.path.join(ctx.workdir, tag + ".in")
     fout = os.path.join(ctx.workdir, tag + ".out")
     with open(fin, "w") as f:
         for c in cases:
             f.write(json.dumps(c) + "\n")
-    rc, log = ctx.run_bin(binp, ["-test.run", "TestVerifC14Engine"], env={"VERIF_IN": fin, "VERIF_OUT": fout}, timeout=1500)
+    env = {"VERIF_IN": fin, "VERIF_OUT": fout}
+    env.update(env_extra or {})
+    rc, log = ctx.run_bin(binp, ["-test.run", "TestVerifC14Engine"], env=env, timeout=1500)
     if rc != 0:
         raise RuntimeError("C14 engine failed:\n" + log[-3000:])
     lines = [json.loads(l) for l in open(fout)]
@@ -712,16 +715,19 @@ def gen_sequences(ctx):
     return seqs
 
 
-def pool_sequences(ctx, poolbin):
+def pool_sequences(ctx, poolbin, env_extra=None, tag="c14seq", limit=None):
     """engine 3: sequences of operations on one pool, each operation under a watchdog"""
     seqs = gen_sequences(ctx)
-    fin = os.path.join(ctx.workdir, "c14seq.in")
-    fout = os.path.join(ctx.workdir, "c14seq.out")
+    if limit:
+        seqs = seqs[:limit]
+    fin = os.path.join(ctx.workdir, tag + ".in")
+    fout = os.path.join(ctx.workdir, tag + ".out")
     with open(fin, "w") as f:
         for s_, _ in seqs:
             f.write(json.dumps(s_) + "\n")
     rc, log = ctx.run_bin(poolbin, ["-test.run", "TestVerifC14MempoolSeqEngine"],
-                          env={"VERIF_IN": fin, "VERIF_OUT": fout, "VERIF_OP_TIMEOUT_MS": "3000", "VERIF_MAX_BLOCKED": "3"}, timeout=1200)
+                          env=dict({"VERIF_IN": fin, "VERIF_OUT": fout, "VERIF_OP_TIMEOUT_MS": "3000", "VERIF_MAX_BLOCKED": "3"}, **(env_extra or {})),
+                          timeout=1200)
     sobs = []
     if os.path.exists(fout):
         for l in open(fout):
@@ -830,6 +836,60 @@ def lock_paths(ctx):
     return {"paths": paths, "unsupported": unsup}, out
 
 
+def config_sweep(ctx, binp, poolbin, cases, obs):
+    """The node configuration as a case dimension: a representative subset of the groups (every (recipient,
+    command, outcome classes) tuple seen at the default level) is run again through the real validators and the
+    real executor in a process with ARGLIB_LEVEL=debug (and trace in the thorough tier), and the pool sequences
+    too.  Predicates: no panic, and the outcome of every stage equals the one at the default log level."""
+    groups, order = {}, []
+    for i, c in enumerate(cases):
+        if c["g"] not in groups:
+            order.append(c["g"])
+        groups.setdefault(c["g"], []).append(i)
+    def tuples(g):
+        t = set()
+        for i in groups[g]:
+            o = obs[i]
+            nm = o.get("name", "") if o.get("decode_ok") else "<undecodable>"
+            t.add((cases[i]["rcpt"], nm, classify(o["v_types"], "types"), classify(o["v_state"], "state"), classify(o["exec"], "exec")))
+        return t
+    budget = 320 if ctx.tier == "quick" else 4000
+    seen, chosen, n = set(), [], 0
+    for g in order:
+        if any(len(cases[i]["p"]) > 20000 for i in groups[g]):
+            continue
+        t = tuples(g)
+        if t - seen and n + len(groups[g]) <= budget:
+            seen |= t
+            chosen.append(g)
+            n += len(groups[g])
+    idx = [i for g in chosen for i in groups[g]]
+    sub = [cases[i] for i in idx]
+    fails, diffs = [], []
+    for level in (["debug"] if ctx.tier == "quick" else ["debug", "trace"]):
+        cfg = {"ARGLIB_LEVEL": level}
+        _, obs2 = run_engine(ctx, binp, sub, "c14_cfg_" + level, env_extra=cfg)
+        for j, (i, o2) in enumerate(zip(idx, obs2)):
+            for stage in ("v_types", "v_state", "exec"):
+                if o2[stage].startswith("PANIC") and not obs[i][stage].startswith("PANIC"):
+                    rep = replay_of(sub, obs2, j)
+                    rep["node_configuration"] = "log level %s (environment ARGLIB_LEVEL=%s, or level = \"%s\" in arglog.toml); at the default level the same transaction gives: %s" % (
+                        level, level, level, obs[i][stage][:120])
+                    fails.append(("C14:panic:config:%s:%s" % (level, panic_key(sub[j], o2, stage)),
+                                  "%s panics on a node with log level %s only: %s" % (stage, level, o2[stage][:160]), rep))
+                    break
+                if classify(o2[stage], {"v_types": "types", "v_state": "state", "exec": "exec"}[stage]) != \
+                        classify(obs[i][stage], {"v_types": "types", "v_state": "state", "exec": "exec"}[stage]):
+                    diffs.append({"node_configuration": "ARGLIB_LEVEL=" + level, "stage": stage, "default_level": obs[i][stage][:160], "this_level": o2[stage][:160],
+                                  "sequence": replay_of(sub, obs2, j)["sequence"][-3:]})
+                    break
+        sf, sd, _, _ = pool_sequences(ctx, poolbin, env_extra=cfg, tag="c14seq_" + level, limit=45)
+        for key, what, rep in sf:
+            fails.append((key + ":" + level, what + " (log level %s)" % level, dict(rep, node_configuration="ARGLIB_LEVEL=" + level)))
+        diffs += [dict(d, node_configuration="ARGLIB_LEVEL=" + level) for d in sd]
+    return fails, diffs, len(sub)
+
+
 def check_hypotheses(cases, obs):
     """The hypotheses of the reachable-state theorems, tested on the real functions' results of this run.
     Returns a list of (what, replay) for every observation contradicting one."""
@@ -935,6 +995,7 @@ def run(ctx):
     hdr, obs = run_engine(ctx, binp, cases, "c14")
     pool_fail, pool_diff, npool = pool_differential(ctx, poolbin, cases, obs)
     seq_fail, seq_diff, nseq, nseqops = pool_sequences(ctx, poolbin)
+    cfg_fail, cfg_diff, ncfg = config_sweep(ctx, binp, poolbin, cases, obs)
     # ---- direct predicate: no panic anywhere
     pred_fail = []
     for i, (c, o) in enumerate(zip(cases, obs)):
@@ -942,7 +1003,7 @@ def run(ctx):
             if o[stage].startswith("PANIC"):
                 pred_fail.append((panic_key(c, o, stage), "%s panics: %s" % (stage, o[stage][:160]), i))
                 break
-    for key, what, rep in pool_fail + seq_fail:
+    for key, what, rep in pool_fail + seq_fail + cfg_fail:
         pred_fail.append((key, what, rep))
     hyp_bad = check_hypotheses(cases, obs)
     # ---- lock release on every path of the pool functions (translated source, checked in Properties/C14.v)
@@ -982,6 +1043,8 @@ def run(ctx):
     if hyp_bad and not corr_broken:
         corr_broken = ("a hypothesis of the reachable-state theorems is contradicted by the real code: " + hyp_bad[0][0],
                        [dict(h[1], what=h[0], tx=replay_of(cases, obs, h[1]["case"])["sequence"][-1]) for h in hyp_bad[:3]])
+    if cfg_diff and not corr_broken:
+        corr_broken = ("the outcome of a validation / execution stage depends on the node's log level", cfg_diff[:3])
     if seq_diff and not corr_broken:
         corr_broken = ("a pool operation of a sequence on one pool did not end with the expected accept / specific rejection", seq_diff[:3])
     if pool_diff and not corr_broken:
@@ -1030,7 +1093,7 @@ def run(ctx):
         "admitted": sum(1 for o in obs if o["v_types"] == "OK" and o["v_state"] == "OK"),
         "executed_success": sum(1 for o in obs if o["exec"].startswith("OK SUCCESS")),
         "exec_classes": {k: v for k, v in sorted(classes.items(), key=lambda kv: -kv[1])[:25]},
-        "panic_sites_in_source": site_count(), "real_mempool_admission_cases": npool,
+        "panic_sites_in_source": site_count(), "real_mempool_admission_cases": npool, "cases_rerun_with_debug_log_level": ncfg,
         "pool_sequences": nseq, "pool_sequence_operations_under_watchdog": nseqops, "rejection_classes_in_sequences": len(SEQ_REJECT),
         "oracle_hypothesis_checks": {"strings_json_roundtrip": sum(len(o.get("strs") or []) for o in obs),
                                      "records_size_bounds": 2 * len(obs), "contradictions": len(hyp_bad)},
